@@ -56,9 +56,12 @@ class Selector(metaclass=InternedMC):
             if v.capture in captures:
                 cap = captures[v.capture]
                 for value in cap.values:
-                    match = v.value == value or (
-                        isinstance(v.value, MatchFunction) and v.value.fn(value)
-                    )
+                    if isinstance(v.value, MatchFunction):
+                        # The predicate decides alone: comparing it to the
+                        # captured value would run that value's __eq__
+                        match = v.value.fn(value)
+                    else:
+                        match = v.value == value
                     if not match:
                         return False
         return True
